@@ -205,6 +205,13 @@ func (m *Manager) handleUpdates(ctx context.Context, ta *target, sc gpb.GNMI_Sub
 	connected := false
 	var recvTimer *time.Timer
 	if ta.receiveTimeout.Nanoseconds() > 0 {
+		// The timeout forces a reconnect by cancelling the context this stream
+		// runs under. Going through Reconnect(name) instead would wait for the
+		// Manager lock (held by a Remove for as long as a dial takes) and then
+		// cancel whatever stream the target has by then.
+		ta.mu.Lock()
+		reconnect := ta.reconnect
+		ta.mu.Unlock()
 		recvTimer = time.NewTimer(ta.receiveTimeout)
 		recvTimer.Stop()
 		go func() {
@@ -212,7 +219,9 @@ func (m *Manager) handleUpdates(ctx context.Context, ta *target, sc gpb.GNMI_Sub
 			case <-ctx.Done():
 			case <-recvTimer.C:
 				log.Errorf("Timed out waiting to receive from %q after %v", ta.name, ta.receiveTimeout)
-				m.Reconnect(ta.name)
+				if reconnect != nil {
+					reconnect()
+				}
 			}
 		}()
 	}
